@@ -8,6 +8,7 @@ from .. import fields, paths
 from ..core import FUNC, call_attr, calls_in, const, dotted, is_const, kwarg, norm, slice_parts, text, walk_local
 
 EXPLANATION = [
+    'C10.bearer-attributes: every attribute read from a `Bearer` parameter (Connection | LeCreditBasedChannel) in bumble.att / bumble.gatt_server exists on every member class possible at the site (isinstance / is_enhanced_bearer narrowing followed): no AttributeError on the enhanced bearer.',
     'C10.blob-part-size: in on_att_read_blob_request the part size is min(bearer.att_mtu - 1, remaining) (or clamped from above by that bound): a Read Blob Response never exceeds ATT_MTU.',
     "C10.att-mtu-min: every assignment of LeCreditBasedChannel.att_mtu (other than the explicit update hook) is min(own mtu, peer mtu): both ends of an enhanced bearer use the same ATT_MTU and nothing longer than the peer's MTU is sent.",
     'C10.integer-arithmetic: no true division in the anchored modules: sizes and budgets are integers (a fractional budget admits one entry too many).',
@@ -668,7 +669,14 @@ def blob_part_size(ctx):
     R.check(ok, rule, f'{SRV}.on_att_read_blob_request | part size', 'min(ATT_MTU - 1, bytes left)', 'the size of the returned part is not bounded above by ATT_MTU-1 (an inverted clamp computes the maximum): whenever more than ATT_MTU-1 bytes remain the whole rest of the value goes out in one Read Blob Response', p.loc(fn))
 
 
+def bearer_attributes(ctx, rule='C10.bearer-attributes'):
+    from ..generic_rules import union_attribute
+    union_attribute(ctx, rule, ['bumble.att', 'bumble.gatt_server'], 'Bearer', {'Connection': 'bumble.device.Connection', 'LeCreditBasedChannel': 'bumble.l2cap.LeCreditBasedChannel'},
+                    {'is_enhanced_bearer': 'LeCreditBasedChannel', 'EnhancedBearer': 'LeCreditBasedChannel'}, floor=25)
+
+
 RULES = [
+    ('C10.bearer-attributes', bearer_attributes),
     ('C10.blob-part-size', blob_part_size),
     ('C10.att-mtu-min', att_mtu_min),
     ('C10.integer-arithmetic', integer_arithmetic_rule),
